@@ -50,7 +50,8 @@ type tcpConnSpec struct {
 	ConnectOK  bool     `json:"connect_ok"`
 	TOut       [2]int   `json:"tout"`
 	TFirst     bool     `json:"target_first,omitempty"`
-	Seg        int      `json:"seg"` // 0 one write, 1 bytewise head, 2 random pieces
+	TFinFirst  bool     `json:"target_fin_first,omitempty"` // the target sends, half-closes at once; only then the client uploads
+	Seg        int      `json:"seg"`                        // 0 one write, 1 bytewise head, 2 random pieces
 }
 type tcpCaseSpec struct {
 	Cfg   []cfgKey      `json:"cfg"`
@@ -237,7 +238,11 @@ func runTCPConn(auth service.StreamAuthenticateFunc, sp *tcpConnSpec) (ob tcpObs
 				ob.TargetGot = buf.Bytes()
 				tmu.Unlock()
 			}
-			if sp.TFirst {
+			if sp.TFinFirst {
+				c.Write(tout)
+				c.(*net.TCPConn).CloseWrite()
+				read()
+			} else if sp.TFirst {
 				c.Write(tout)
 				read()
 				c.(*net.TCPConn).CloseWrite()
@@ -251,6 +256,17 @@ func runTCPConn(auth service.StreamAuthenticateFunc, sp *tcpConnSpec) (ob tcpObs
 		}()
 	}
 	wire, _, key := clientWire(sp, port)
+	firstLen := 0
+	if sp.Kind == "honest" {
+		first := len(addrBytes(sp.AKind, port))
+		if sp.Coalesce && len(sp.Chunks) > 0 {
+			first += sp.Chunks[0][0]
+		}
+		if first > 16383 {
+			first = 16383
+		}
+		firstLen = saltSizes[sp.C] + 2 + 16 + first + 16
+	}
 	// server
 	sl, err := net.Listen("tcp", "127.0.0.1:0")
 	if err != nil {
@@ -291,12 +307,24 @@ func runTCPConn(auth service.StreamAuthenticateFunc, sp *tcpConnSpec) (ob tcpObs
 	// reader
 	var raw bytes.Buffer
 	readDone := make(chan error, 1)
+	eofSeen := make(chan struct{})
 	go func() {
 		_, err := io.Copy(&raw, tc)
+		close(eofSeen)
 		readDone <- err
 	}()
 	// writer with segmentation
 	writeAll := func() {
+		if sp.TFinFirst && sp.Kind == "honest" && len(sp.Chunks) > 0 && firstLen > 0 && firstLen < len(wire) {
+			// address chunk first; upload the rest only after the target's half-close has arrived
+			tc.Write(wire[:firstLen])
+			select {
+			case <-eofSeen:
+			case <-time.After(1500 * time.Millisecond):
+			}
+			tc.Write(wire[firstLen:])
+			return
+		}
 		switch sp.Seg {
 		case 1:
 			n := len(wire)
